@@ -19,6 +19,7 @@ import (
 	"errors"
 	"fmt"
 	"io"
+	"math"
 	"net/http"
 	"strconv"
 	"strings"
@@ -422,11 +423,37 @@ func restDecodeTimeout(timeout string) (time.Duration, error) {
 	if timeout == "" {
 		return 0, nil
 	}
-	val, err := strconv.ParseFloat(timeout, 64)
-	if err != nil {
-		return 0, fmt.Errorf("invalid timeout %q: %w", timeout, err)
+	// The value is plain decimal seconds: digits with an optional fraction.
+	// It is converted exactly (no detour through a float, which would accept
+	// NaN, Inf, signs, exponents and hex, lose up to a nanosecond-unit to
+	// rounding, and overflow silently).
+	intPart, fracPart, hasDot := strings.Cut(timeout, ".")
+	if intPart == "" && fracPart == "" || hasDot && strings.Contains(fracPart, ".") {
+		return 0, fmt.Errorf("invalid timeout %q", timeout)
 	}
-	return time.Duration(val * float64(time.Second)), nil
+	for _, ch := range intPart + fracPart {
+		if ch < '0' || ch > '9' {
+			return 0, fmt.Errorf("invalid timeout %q", timeout)
+		}
+	}
+	const maxSeconds = math.MaxInt64 / int64(time.Second)
+	intPart = strings.TrimLeft(intPart, "0")
+	if len(intPart) > len(strconv.FormatInt(maxSeconds, 10)) {
+		return time.Duration(math.MaxInt64), nil // beyond the representable range
+	}
+	var seconds int64
+	if intPart != "" {
+		seconds, _ = strconv.ParseInt(intPart, 10, 64)
+	}
+	if seconds >= maxSeconds {
+		return time.Duration(math.MaxInt64), nil
+	}
+	if len(fracPart) > 9 {
+		fracPart = fracPart[:9] // below one nanosecond: truncate
+	}
+	fracPart += strings.Repeat("0", 9-len(fracPart))
+	nanos, _ := strconv.ParseInt(fracPart, 10, 64)
+	return time.Duration(seconds)*time.Second + time.Duration(nanos), nil
 }
 
 // Encode timeout as a float in seconds for X-Server-Timeout header.
